@@ -149,6 +149,7 @@ func (server *httpServer) handleHttpRequest(conn net.Conn) string {
 		return answer(httpOk+jsonContentType, message)
 	}
 	conn.SetReadDeadline(time.Now().Add(httpReadTimeout))
+	section := 0
 	scanner := bufio.NewScanner(conn)
 	scanner.Split(func(data []byte, atEOF bool) (int, []byte, error) {
 		found := bytes.Index(data, []byte(crlf))
@@ -156,13 +157,13 @@ func (server *httpServer) handleHttpRequest(conn net.Conn) string {
 			token := data[:found+len(crlf)]
 			return len(token), token, nil
 		}
-		if atEOF || len(body)+len(data) >= contentLength {
+		// The body may not end with CRLF. The header lines always do.
+		if atEOF || section == 2 && len(body)+len(data) >= contentLength {
 			return 0, data, bufio.ErrFinalToken
 		}
 		return 0, nil, nil
 	})
 
-	section := 0
 	var getRequest *getParams
 Loop:
 	for scanner.Scan() {
